@@ -4,7 +4,7 @@
    same value / exception / call log (the branch_equiv theorems); outside it the difference is stated (the range_divergence theorems). *)
 From Coq Require Import List ZArith Bool Lia.
 Import ListNotations.
-From SAV.cy Require Import Dual DualProofs DualTheorems DualSites.
+From SAV.cy Require Import Dual DualProofs DualTheorems DualSites DualAlias.
 Open Scope Z_scope.
 
 (* ---- generic: PyList_New/PyTuple_New + SET_ITEM over range(n) is the list comprehension *)
@@ -139,3 +139,28 @@ Print Assumptions c55_branch_equiv_immutabledict_update.
 Theorem c55_known_sites_covered : forallb (fun s : site => existsb (Z.eqb (snd s)) proved_pairs) known_sites = true.
 Proof. vm_compute. reflexivity. Qed.
 Print Assumptions c55_known_sites_covered.
+
+(* ---- reference semantics of result processors: EVERY processor is applied to EVERY value of the row
+        (None included - a value like any other), in index order: both branches equal the zip-apply [spec_c] *)
+Theorem c55_apply_processors_is_map2 : forall procs data, length data = length procs ->
+  ap_res_compiled procs data = spec_c procs data /\ ap_res_pure procs data = spec_c procs data.
+Proof.
+  intros procs data H. split.
+  - unfold ap_res_compiled. apply ap_compiled_spec.
+  - rewrite ap_res_pure_spec. symmetry. apply spec_equal_lengths. congruence.
+Qed.
+Print Assumptions c55_apply_processors_is_map2.
+
+(* ---- aliasing: unique_list (and OrderedSet(iterable)._list built from it) is a FRESH object in both branches:
+        a later mutation of the argument is invisible through the result and vice versa *)
+Theorem c55_unique_list_result_is_fresh : forall uniq, (uniq = a_unique_compiled \/ uniq = a_unique_pure) ->
+  forall st src x, (src < length st)%nat ->
+  let '(r, st') := uniq st src in
+  r <> src /\ a_read st' src = a_read st src /\
+  a_read (a_upd st' src (a_read st' src ++ [x])) r = a_read st' r /\
+  a_read (a_upd st' r (a_read st' r ++ [x])) src = a_read st' src.
+Proof. exact unique_list_result_is_fresh. Qed.
+Print Assumptions c55_unique_list_result_is_fresh.
+Theorem c55_alias_runs_agree : forall ops st, a_run a_unique_compiled st ops = a_run a_unique_pure st ops.
+Proof. exact alias_runs_agree. Qed.
+Print Assumptions c55_alias_runs_agree.
